@@ -115,6 +115,10 @@ def jalali_forms(y, m, d, g, full, rnd):
     forms.append(("time-words-mixed", g.replace(hour=9, minute=5), "%d %s %d ساعت 9 و 05 دقیقه" % (d, mname, y)))
     forms.append(("time-words-seconds", g.replace(hour=11, minute=1, second=7), "%d %s %d ساعت 11 و 01 دقیقه و 7 ثانیه" % (d, mname, y)))
     forms.append(("time-words-persian-digits", g.replace(hour=7, minute=5), pers("%04d/%02d/%02d ساعت 7 و 05 دقیقه" % (y, m, d))))
+    # both digit scripts in one string, in either order
+    forms.append(("mixed-digits-latin-first", g, "%d %s %s" % (d, mname, pers("%d" % y))))
+    forms.append(("mixed-digits-persian-first", g, "%s %s %d" % (pers("%d" % d), mname, y)))
+    forms.append(("mixed-digits-time", g.replace(hour=19, minute=5), "%04d/%02d/%02d %s" % (y, m, d, pers("19:05"))))
     return forms
 
 
